@@ -501,6 +501,18 @@ def reccall_summary(I, fi, args, kwargs, node):
     return Sym(("rec0", fi.qualname), "bool")
 
 
+def agg_over_keys(t):
+    """Is ``t`` a min/max aggregate term whose operands are exactly the *keys* of the base (one unguarded group over the
+    base's conditionals whose value is the key of the element - not the conditional object, not a position)?"""
+    if not (isinstance(t, tuple) and len(t) >= 2 and t[0] in ("min", "max") and isinstance(t[1], tuple)):
+        return False
+    segs = t[1]
+    if len(segs) != 1 or segs[0][0] != "each":
+        return False
+    _, b, fam, g, val = segs[0]
+    return fam == KEYS_D and g == PTRUE and val == ("elem", b, "key")
+
+
 def lin_facts_hold(path, n, pvar=PVAR):
     """Do the path's decided linear predicates hold when len(P) = n?  (only predicates that mention nothing but
     len(P) are interpreted; others are ignored)"""
